@@ -113,8 +113,9 @@ func evalExecBlock(vm *r.VM, execBlock *syntax.ExecBlock, params []r.Element) (r
 			return nil, err
 		}
 
-		// set inputValue to current scope
-		if err := vm.DeclareElement(idTag, params[idx]); err != nil {
+		// set inputValue to current scope - input names are constants
+		// (manual chapter 4: they cannot be changed by assignment)
+		if err := vm.DeclareConstElement(idTag, params[idx]); err != nil {
 			return nil, err
 		}
 	}
